@@ -918,7 +918,11 @@ impl Parser {
     }
 
     fn parse_binop(&mut self) -> Option<BinaryOperator> {
-        Some(match self.current_token().tag() {
+        Self::binop_of_tag(self.current_token().tag())
+    }
+
+    fn binop_of_tag(tag: TokenTag) -> Option<BinaryOperator> {
+        Some(match tag {
             TokenTag::Plus => BinaryOperator::Add,
             TokenTag::Minus => BinaryOperator::Subtract,
             TokenTag::Star => BinaryOperator::Multiply,
@@ -957,7 +961,18 @@ impl Parser {
                 if next_tag != TokenTag::IntLit && next_tag != TokenTag::FloatLit {
                     PrefixOp::Minus
                 } else {
-                    return None;
+                    // `-` followed by a numeric literal is a negative literal (so that the
+                    // smallest int can be written), unless an operator that binds tighter than
+                    // unary minus follows: `-2 ^ 2` groups like `-x ^ 2`, as `-(2 ^ 2)`.
+                    let after_literal = self.peek_token(2).tag();
+                    let binds_tighter = Self::postfix_op_of_tag(after_literal).is_some()
+                        || Self::binop_of_tag(after_literal)
+                            .is_some_and(|op| op.precedence() > PrefixOp::Minus.precedence());
+                    if binds_tighter {
+                        PrefixOp::Minus
+                    } else {
+                        return None;
+                    }
                 }
             }
             TokenTag::Not => PrefixOp::Not,
@@ -966,7 +981,11 @@ impl Parser {
     }
 
     fn parse_postfix_op(&mut self) -> Option<PostfixOp> {
-        Some(match self.current_token().tag() {
+        Self::postfix_op_of_tag(self.current_token().tag())
+    }
+
+    fn postfix_op_of_tag(tag: TokenTag) -> Option<PostfixOp> {
+        Some(match tag {
             TokenTag::OpenParen => PostfixOp::FuncCall,
             TokenTag::Dot => PostfixOp::MemberAccess,
             TokenTag::OpenBracket => PostfixOp::IndexAccess,
